@@ -313,9 +313,14 @@ class ProjGen:
                      ident('it'), S('rbracket'), S('eol'), S('endforeach')]]
         return [[S('if')] + self.expr('bool') + [S('eol'), ident(self.fresh('w')), S('assign')] + self.expr('int') + [S('eol'), S('endif')]]
 
-    def target(self, name: str, subdir: str, shared: T.Optional[T.Tuple[str, T.List[str]]], in_if: bool) -> T.List[T.List[Tok]]:
-        """Statements defining one target (variable assignments first)."""
+    def target(self, name: str, subdir: str, shared: T.Optional[T.Tuple[str, T.List[str]]], in_if: bool,
+               ext: T.Optional[T.Dict[str, T.Tuple[str, T.List[str], str]]] = None) -> T.List[T.List[Tok]]:
+        """Statements defining one target (variable assignments first).
+
+        ext: lists written in ANOTHER build file and reached through a variable: {'src' | 'extra': (variable, the files it
+        denotes for this target relative to the source root, directory it is written in)}."""
         r = self.r
+        ext = ext or {}
         pre: T.List[T.List[Tok]] = []
         kind = r.choice(['executable', 'executable', 'static_library', 'library', 'shared_library', 'both_libraries', 'shared_module'])
         srcs = r.sample(SRC_POOL, r.choice([1, 2, 2, 3]))
@@ -331,6 +336,17 @@ class ProjGen:
             form = r.choice(['inline', 'array', 'files'])
             if not srcs:
                 form = 'none'
+        ext_srcs: T.List[str] = []
+        if 'src' in ext:
+            args.append([ident(ext['src'][0])])
+            ext_srcs = list(ext['src'][1])
+            clash = {os.path.basename(x) for x in ext_srcs}
+            srcs = [x for x in srcs if x not in clash] if r.random() < 0.4 else []
+            all_srcs = [x for x in all_srcs if x in srcs or (shared is not None and x in shared[1])]
+            if not srcs:
+                form = 'none'
+            elif form not in ('inline', 'array', 'files', 'kw'):
+                form = r.choice(['inline', 'array', 'files'])
         multi: T.List[T.List[str]] = []              # groups of sources held by different nodes of the same statement
         if form in ('arrpos', 'nested') and len(srcs) < 2:
             form = 'array'
@@ -396,6 +412,11 @@ class ProjGen:
         extras: T.List[str] = []
         multi_extra: T.List[T.List[str]] = []
         c = r.random()
+        ext_extras: T.List[str] = []
+        if 'extra' in ext:
+            kws.append(('extra_files', [ident(ext['extra'][0])]))
+            ext_extras = list(ext['extra'][1])
+            c = 1.0
         if c < 0.45:
             extras = r.sample(EXTRA_POOL, r.choice([1, 2]))
             ef = r.choice(['array', 'var', 'single', 'nested']) if not in_if else 'array'
@@ -468,8 +489,9 @@ class ProjGen:
             call = [ident(var), S('assign')] + call
             if kind in ('static_library', 'library', 'shared_library', 'both_libraries'):
                 self.libvars.append(var)
-        self.targets.append({'name': name, 'var': var, 'kind': kind, 'dir': subdir, 'srcs': [os.path.join(subdir, s) for s in all_srcs],
-                             'extras': [os.path.join(subdir, s) for s in extras], 'referenced': False, 'kwkeys': sorted(used),
+        self.targets.append({'name': name, 'var': var, 'kind': kind, 'dir': subdir, 'srcs': [os.path.join(subdir, s) for s in all_srcs] + ext_srcs,
+                             'extras': [os.path.join(subdir, s) for s in extras] + ext_extras, 'referenced': False, 'kwkeys': sorted(used),
+                             'dirs': sorted({subdir} | {v[2] for v in ext.values()} | ({''} if ext else set())),
                              'shared': shared is not None, 'libs_before': libs_before,
                              'multi': [[os.path.join(subdir, x) for x in g] for g in multi],
                              'multi_extra': [[os.path.join(subdir, x) for x in g] for g in multi_extra],
@@ -578,12 +600,43 @@ class ProjGen:
             root.append([ident(sv), S('assign')] + (self.strlist(sfiles) if r.random() < 0.7 else self.files_call(sfiles)))
             shared = (sv, sfiles)
         sub_stmts: T.List[T.List[Tok]] = []
-        have_sub = r.random() < 0.3
+        other_stmts: T.List[T.List[Tok]] = []
+        have_sub = r.random() < 0.42
+        # multi-directory layouts: the list of the target of sub/ (or of a target of the root) is WRITTEN in another build
+        # file - the parent's or a sibling's - and reaches the target through a variable.  Plain strings are files of the
+        # target's directory, files() objects files of the directory files() stands in.
+        layout = r.choice(['own', 'parent', 'parent', 'sibling', 'sibling', 'up']) if have_sub else 'own'
+        have_other = layout in ('sibling', 'up')
+        ext: T.Dict[str, T.Tuple[str, T.List[str], str]] = {}
+        ext_for = nt - 1
+        if layout != 'own':
+            wdir = '' if layout == 'parent' else 'other'
+            tdir = '' if layout == 'up' else 'sub'
+            if layout == 'up':
+                ext_for = r.randrange(nt - 1) if nt > 1 else 0
+            where = root if layout == 'parent' else other_stmts
+            flds = r.choice([['src'], ['src'], ['src', 'extra'], ['extra']])
+            for fld in flds:
+                kind = r.choice(['strings', 'strings', 'files'])
+                items = r.sample(SRC_POOL if fld == 'src' else EXTRA_POOL, r.choice([1, 2]))
+                v = self.fresh('xsrc' if fld == 'src' else 'xef')
+                where.append([ident(v), S('assign')] + (self.strlist(items, False) if kind == 'strings' else self.files_call(items)))
+                ext[fld] = (v, [os.path.join(tdir if kind == 'strings' else wdir, x) for x in items], wdir)
+            if layout == 'up' and nt == 1:
+                have_sub = False
+        if have_other and not have_sub:
+            root.append([ident('subdir'), S('lparen'), string('other'), S('rparen')])
         for i, name in enumerate(names):
             for _ in range(r.choice([0, 0, 1])):
                 root += self.bystander_stmt()
             if have_sub and i == nt - 1:
-                sub_stmts += self.target(name, 'sub', None, False)
+                sub_stmts += self.target(name, 'sub', None, False, ext if layout in ('parent', 'sibling') else None)
+                continue
+            if layout == 'up' and i == ext_for:
+                if have_sub:
+                    root.append([ident('subdir'), S('lparen'), string('other'), S('rparen')])
+                    have_other = False                                  # written
+                root += self.target(name, '', None, False, ext)
                 continue
             use_shared = shared if shared is not None and i < 2 else None
             if use_shared is None and r.random() < 0.12:
@@ -598,14 +651,18 @@ class ProjGen:
                 root += self.target(name, '', use_shared, False)
         if have_sub:
             # after the root targets: the sub-directory may link with library variables of the root file
+            if layout == 'sibling':
+                root.append([ident('subdir'), S('lparen'), string('other'), S('rparen')])
             root.append([ident('subdir'), S('lparen'), string('sub'), S('rparen')])
         for _ in range(r.choice([0, 1])):
             root += self.bystander_stmt()
         files = {'meson.build': self.render(root)}
         if have_sub:
             files['sub/meson.build'] = self.render(sub_stmts)
-        touch = SRC_POOL + EXTRA_POOL + [NEWLINE_FILE, 'new1.c', 'new2.c', 'sub/new1.c', 'sub/new2.c'] + ['sub/' + f for f in SRC_POOL + EXTRA_POOL]
-        return {'files': files, 'touch': touch, 'targets': self.targets, 'license': self.license, 'dopts': self.dopts, 'dform': self.dform,
+        if other_stmts:
+            files['other/meson.build'] = self.render(other_stmts)
+        touch = [NEWLINE_FILE] + [os.path.join(d, f) for d in ('', 'sub', 'other') for f in SRC_POOL + EXTRA_POOL + ['new1.c', 'new2.c']]
+        return {'layout': layout, 'files': files, 'touch': touch, 'targets': self.targets, 'license': self.license, 'dopts': self.dopts, 'dform': self.dform,
                 'libvars': self.libvars, 'have_sub': have_sub, 'pair': self.pair}
 
 
@@ -631,7 +688,9 @@ def gen_commands(rnd: random.Random, proj: T.Dict[str, T.Any]) -> T.List[T.Dict[
         if proj['pair'] and proj['dform'] != 'dict' and not out and r.random() < 0.5:
             c = 0.95
         t = r.choice(targets)
-        pool = [os.path.join(t['dir'], f) for f in SRC_POOL + ['new1.c', 'new2.c']]
+        # files of the target's directory, of the directories its lists are written in and (for a target below) of the root
+        dirs = list(t['dirs']) + ([''] if t['dir'] and '' not in t['dirs'] and r.random() < 0.3 else [])
+        pool = [os.path.join(d, f) for d in dirs for f in SRC_POOL + ['new1.c', 'new2.c']]
         if c < 0.16:
             # add then remove a new file / remove then add an existing one
             if r.random() < 0.5:
@@ -652,11 +711,11 @@ def gen_commands(rnd: random.Random, proj: T.Dict[str, T.Any]) -> T.List[T.Dict[
                 fs.append(r.choice(pool))
             out.append(acmd('src_rm', address(t), files=fs, cli=cli(True)))
         elif c < 0.47:
-            epool = [os.path.join(t['dir'], f) for f in EXTRA_POOL]
+            epool = [os.path.join(d, f) for d in dirs for f in EXTRA_POOL]
             out.append(acmd('extra_files_add', address(t), files=r.sample(epool, r.choice([1, 2])), cli=cli(True)))
         elif c < 0.53:
             if not t['extras'] and r.random() < 0.15:
-                out.append(acmd('extra_files_rm', address(t), files=[os.path.join(t['dir'], r.choice(EXTRA_POOL))], cli=cli(True)))
+                out.append(acmd('extra_files_rm', address(t), files=[os.path.join(r.choice(dirs), r.choice(EXTRA_POOL))], cli=cli(True)))
                 continue
             if t['multi_extra'] and r.random() < 0.8:
                 out.append(acmd('extra_files_rm', address(t), files=[r.choice(g) for g in t['multi_extra']], cli=cli(True)))
@@ -666,7 +725,7 @@ def gen_commands(rnd: random.Random, proj: T.Dict[str, T.Any]) -> T.List[T.Dict[
             if t['extras']:
                 out.append(acmd('extra_files_rm', address(t), files=r.sample(t['extras'], 1), cli=cli(True)))
             else:
-                f = os.path.join(t['dir'], r.choice(EXTRA_POOL))
+                f = os.path.join(r.choice(dirs), r.choice(EXTRA_POOL))
                 out += [acmd('extra_files_add', address(t), files=[f]), acmd('extra_files_rm', address(t), files=[f])]
         elif c < 0.59:
             name = r.choice(['newt', 'new-lib', 'n2', 'tool x'] + [t['name']] * (1 if r.random() < 0.3 else 0) + ['my.app'] * (1 if r.random() < 0.2 else 0))
@@ -824,8 +883,47 @@ def parse_info(out: str, err: str) -> T.Optional[T.List[T.Dict[str, T.Any]]]:
     return None
 
 
-def meson_rewrite(d: Path, args: T.List[str], cwd: Path, skip: bool = False) -> T.Tuple[int, str, str]:
-    cmd = [common.PYTHON, str(common.REPO / 'meson.py'), 'rewrite'] + (['-S'] if skip else []) + ['--sourcedir', str(d)] + args
+def working_dir(d: Path, base: Path, where: str) -> T.Tuple[Path, str]:
+    """(working directory, --sourcedir argument) of a case: 'outside' (the parent of the project, absolute source
+    directory), 'root' (the source root itself, `--sourcedir .`), 'in:<dir>' (a directory of the project, relative
+    source directory), 'rel' (outside, relative source directory)."""
+    if where == 'root':
+        return d, '.'
+    if where.startswith('in:'):
+        cwd = d / where[3:]
+        cwd.mkdir(parents=True, exist_ok=True)
+        return cwd, os.path.relpath(d, cwd)
+    if where == 'rel':
+        return base, os.path.relpath(d, base)
+    return base, str(d)
+
+
+def names_exist(where: str, touch: T.Sequence[str], cmds: T.Sequence[T.Dict[str, T.Any]]) -> bool:
+    """Does a file named by a target command exist relative to that working directory?"""
+    if where == 'root':
+        return any(f in touch for c in cmds for f in c['files'])
+    if where.startswith('in:'):
+        return any(os.path.normpath(os.path.join(where[3:], f)) in touch for c in cmds for f in c['files'])
+    return False
+
+
+def choose_cwd(r: random.Random, proj: T.Dict[str, T.Any], cmds: T.Sequence[T.Dict[str, T.Any]]) -> str:
+    """Where the rewriter is started.  File names of a command are relative to the source root; when a name also exists
+    relative to the working directory the documentation does not say which file is meant, so such a directory is only
+    chosen when both readings agree (the source root itself)."""
+    c = r.random()
+    if c < 0.25:
+        return 'root'
+    if c < 0.45:
+        cands = ['in:wd', 'rel'] + (['in:sub'] if proj['have_sub'] else []) + (['in:other'] if 'other/meson.build' in proj['files'] else [])
+        where = r.choice(cands)
+        if not names_exist(where, proj['touch'], cmds):
+            return where
+    return 'outside'
+
+
+def meson_rewrite(d: Path, args: T.List[str], cwd: Path, skip: bool = False, sourcedir: T.Optional[str] = None) -> T.Tuple[int, str, str]:
+    cmd = [common.PYTHON, str(common.REPO / 'meson.py'), 'rewrite'] + (['-S'] if skip else []) + ['--sourcedir', sourcedir or str(d)] + args
     env = dict(os.environ)
     env['PYTHONDONTWRITEBYTECODE'] = '1'
     env.pop('MESON_FORCE_BACKTRACE', None)
@@ -857,10 +955,11 @@ def run_case(spec: T.Dict[str, T.Any], mods: T.Tuple[T.Any, T.Any, T.Any], alpha
         case: T.Dict[str, T.Any] = {'id': spec['id'], 'model': spec.get('model', 0), 'f0': f0, 'steps': []}
         log: T.List[T.Dict[str, T.Any]] = [{'files': raw0}]
         names = list(spec['names'])
+        cwd, srcarg = working_dir(d, base, spec.get('cwd', 'outside'))
         for c in spec['cmds']:
             if c['op'] == 'target_add' and c['t'] not in names:
                 names.append(c['t'])
-            rc, out, err = meson_rewrite(d, cli_args(c), base)
+            rc, out, err = meson_rewrite(d, cli_args(c), cwd, sourcedir=srcarg)
             failed = rc != 0 or 'Traceback (most recent call last)' in err + out or re.search(r'^ERROR', err + '\n' + out, re.M) is not None
             files, parses, raw = read_project(d, mp, ml, alpha, texts)
             info: T.Optional[T.List[T.Dict[str, T.Any]]] = []
@@ -981,6 +1080,59 @@ FIXED_BLANK = "project('p', 'c')\nexecutable('b1', 'a.c', install_tag : '''a  \n
 FIXED_SUB = "s_src = files('s.c', 't.c')\nexecutable('s1', s_src, install : 2 - (3 - 4) == 3)\n"
 
 
+# a multi-directory project: every list is written in another build file than the target it feeds
+FIXED_M_ROOT = """project('m', 'c', version : '1.0')
+p_strs = ['a.c']            # plain strings: files of the directory of the target that uses them (sub/)
+p_files = files('b.c')      # files(): files of this directory
+p_extra = ['README']
+flags = ['-DX=' + (1 + 2).to_string(), 'it\\'s']
+subdir('other')
+r1 = executable('r1', o_up, install : not (true and false))
+subdir('sub')
+message('done')
+"""
+FIXED_M_OTHER = """o_strs = ['c.c']   # used by a target of ../sub
+o_files = files('d.c')
+o_up = ['e.c']              # used by a target of the parent directory
+o_extra = files('NOTES.md')
+"""
+FIXED_M_SUB = """executable('m1', p_strs, extra_files : p_extra, c_args : flags)
+m2 = executable('m2', p_files, pie : (1 + 2) * 3 > 8 - (2 - 1))
+executable('m3', o_strs, 'main.c', name_suffix : ('a' + 'b').to_upper())
+executable('m4', o_files, extra_files : o_extra)
+executable('m5', 'l.c')
+"""
+M_DIRS = {'m1': 'sub', 'm2': 'sub', 'm3': 'sub', 'm4': 'sub', 'm5': 'sub', 'r1': ''}
+
+
+def fixed_multidir_cases() -> T.List[T.Dict[str, T.Any]]:
+    A = acmd
+    files = {'meson.build': FIXED_M_ROOT, 'other/meson.build': FIXED_M_OTHER, 'sub/meson.build': FIXED_M_SUB}
+    touch = [os.path.join(d, f) for d in ('', 'sub', 'other') for f in ['a.c', 'b.c', 'c.c', 'd.c', 'e.c', 'l.c', 'main.c', 'new1.c', 'README', 'NOTES.md', 'TODO']]
+    seqs = [
+        # strings written in the parent, target below
+        [A('src_add', 'm1', files=['sub/new1.c']), A('src_rm', 'm1', files=['sub/new1.c']), A('src_rm', 'm1', files=['sub/a.c'])],
+        [A('src_rm', 'm1', files=['sub/a.c']), A('src_add', 'm1', files=['sub/a.c']), A('extra_files_add', 'm1', files=['sub/NOTES.md', 'TODO'])],
+        [A('extra_files_rm', 'm1', files=['sub/README']), A('extra_files_add', 'm1', files=['sub/README']), A('src_add', 'm1', files=['new1.c', 'other/new1.c'])],
+        # files() written in the parent
+        [A('src_add', 'm2', files=['c.c', 'sub/a.c']), A('src_rm', 'm2', files=['b.c']), A('info', 'm2')],
+        # strings / files() written in a sibling directory
+        [A('src_add', 'm3', files=['other/a.c', 'sub/b.c']), A('src_rm', 'm3', files=['sub/c.c', 'other/a.c']), A('src_add', 'm3', files=['sub/c.c'])],
+        [A('src_add', 'm4', files=['other/e.c', 'a.c']), A('src_rm', 'm4', files=['other/d.c']), A('extra_files_add', 'm4', files=['sub/TODO'])],
+        [A('extra_files_rm', 'm4', files=['other/NOTES.md']), A('extra_files_add', 'm4', files=['other/NOTES.md', 'other/TODO'])],
+        # strings written below, target in the parent
+        [A('src_add', 'r1', files=['other/a.c', 'new1.c']), A('src_rm', 'r1', files=['e.c']), A('src_add', 'r1', files=['e.c'])],
+        # a target of the sub-directory with its own sources: files of other directories
+        [A('src_add', 'm5', files=['new1.c', 'other/a.c', 'sub/a.c']), A('src_rm', 'm5', files=['new1.c', 'sub/l.c'])],
+    ]
+    out = []
+    for i, cmds in enumerate(seqs):
+        for where in ('outside', 'root', 'in:wd'):
+            out.append({'id': f'fixed:m{i}:{where}', 'files': files, 'touch': touch, 'cmds': [dict(c, cli='positional' if where == 'in:wd' else c['cli']) for c in cmds],
+                        'names': sorted(M_DIRS), 'cwd': where, 'tdirs': M_DIRS, 'layout': 'fixed'})
+    return out
+
+
 def fixed_cases() -> T.List[T.Dict[str, T.Any]]:
     A = acmd
     files = {'meson.build': FIXED_ROOT, 'sub/meson.build': FIXED_SUB}
@@ -1021,6 +1173,7 @@ def fixed_cases() -> T.List[T.Dict[str, T.Any]]:
          A('kw_remove', '/', fn='project', kws=[kw('license', 'MIT')], cli='positional')],
     ]
     out = [{'id': f'fixed:{i}', 'files': files, 'touch': touch, 'cmds': cmds, 'names': names} for i, cmds in enumerate(seqs)]
+    out += fixed_multidir_cases()
     out.append({'id': 'fixed:blank', 'files': {'meson.build': FIXED_BLANK}, 'touch': ['a.c'], 'names': ['b1'],
                 'cmds': [A('kw_set', 'b1', kws=[kw('pie', True)])]})
     return out
@@ -1033,8 +1186,10 @@ def fixed_cases() -> T.List[T.Dict[str, T.Any]]:
 def gen_spec(sd: int, it: int, mp: T.Any) -> T.Dict[str, T.Any]:
     rnd = random.Random(sd * 1000003 + it)
     proj = ProjGen(rnd, mp).generate()
-    return {'id': f'gen:{sd}:{it}', 'files': proj['files'], 'touch': proj['touch'], 'cmds': gen_commands(rnd, proj),
-            'names': [t['name'] for t in proj['targets']]}
+    cmds = gen_commands(rnd, proj)
+    return {'id': f'gen:{sd}:{it}', 'files': proj['files'], 'touch': proj['touch'], 'cmds': cmds,
+            'names': [t['name'] for t in proj['targets']], 'cwd': choose_cwd(rnd, proj, cmds), 'layout': proj['layout'],
+            'tdirs': {k: t['dir'] for t in proj['targets'] for k in (t['name'], t['var']) if k}}
 
 
 def _worker(items: T.List[T.Dict[str, T.Any]]) -> T.Dict[str, T.Any]:
@@ -1112,6 +1267,11 @@ def features(c: T.Dict[str, T.Any], v: T.Dict[str, T.Any]) -> T.List[str]:
             if lost and all(re.sub(r'\s+\n', '\n', x) in (after.get(path) or '') for x in lost):
                 out.append('multi-line-literal-with-blank-before-newline')
                 break
+    spec = c.get('spec') or {}
+    if clause == 'ProjectDiffers' and cmd['op'] in ('src_add', 'src_rm', 'extra_files_add', 'extra_files_rm') and 'addressed target: ' in v.get('note', '') \
+            and (spec.get('tdirs') or {}).get(cmd['t']) and names_exist(spec.get('cwd', 'outside'), spec.get('touch', []), [cmd]):
+        # the named file exists relative to the working directory (here: the source root, so there is one reading only)
+        out.append('named-file-exists-relative-to-working-directory+target-in-sub-directory')
     if clause == 'ProjectDiffers' and cmd['op'] == 'extra_files_add':
         after = c['log'][step]['files']
         if any(re.search(r"extra_files\s*:\s*'(?:[^'\\]|\\.)*'\s*\+\s*\[", t) for t in after.values()):
@@ -1223,6 +1383,10 @@ def main(chk: Check) -> None:
     cfg = (FAM / 'Rewriter_MC.cfg').read_text().replace('MaxLen = 3', 'MaxLen = %d' % (3 if quick else 4))
     res = run_tlc(FAM, 'Rewriter_MC', cfg_text=cfg, timeout=3000, allow_violation=False)
     chk.add_tlc('Rewriter_MC', res)
+    # multi-directory projects: path resolution per list kind, list-level edits refine the rule book
+    cfg = (FAM / 'RewriterDirs_MC.cfg').read_text().replace('MaxLen = 2', 'MaxLen = %d' % (1 if quick else 2))
+    res = run_tlc(FAM, 'RewriterDirs_MC', cfg_text=cfg, timeout=3000, allow_violation=False)
+    chk.add_tlc('RewriterDirs_MC', res)
     ngen = int(os.environ.get('C17_NGEN', 160 if quick else 2500))          # development knobs; the tiers use the defaults
     nmodel = int(os.environ.get('C17_NMODEL', 50 if quick else 450))
     chk.rule = ('a case is one generated (or model) project with a sequence of 1-3 rewriter commands run through the real CLI; it is '
@@ -1258,9 +1422,18 @@ def main(chk: Check) -> None:
         chk.sample({'id': c['id'], 'meson.build': c['spec']['files']['meson.build'][:400], 'commands': [cli_args(x) for x in c['spec']['cmds']],
                     'after': c['log'][-1]['files'].get('meson.build', '')[:400]})
     chk.extra['commands_by_operation'] = ops
+    lay: T.Dict[str, int] = {}
+    for c in cases:
+        key = f"{c['spec'].get('layout', 'model')}/{c['spec'].get('cwd', 'outside')}"
+        lay[key] = lay.get(key, 0) + 1
+    chk.extra['cases_by_layout_and_working_directory'] = lay
     chk.extra['cases_skipped_invalid_project'] = stats['skipped']
     chk.assumptions += [
-        'the CLI is run with a working directory outside the project, so source arguments are taken relative to the source root',
+        'file names of target commands are relative to the source root (pinned by unittests/rewritetests.py test_target_subdir); the CLI is started '
+        'outside the project, in the source root, or in a directory of the project relative to which none of the named files exists - a name '
+        'that exists relative to the working directory but means another file relative to the source root is not generated (undocumented)',
+        'multi-directory layouts: one list (strings or files()) per field written in the parent or a sibling build file; nested sub-directories, '
+        'lists reached through more than one variable hop across files and `..` inside list elements of the initial project are not generated',
         'removing a file that reaches the target through a variable also feeding another target may be refused (nothing changes)',
         'list-valued keyword arguments (license, link_with, ...) are compared as lists: a scalar equals the one-element list, [] equals absence',
         'default option values True/False are read as true/false; default_options given as a dict are not addressed by set/delete',
